@@ -17,7 +17,7 @@ Fixpoint find_node (ns : list (N * znode)) (p : list N) : option znode :=
   end.
 
 (* the Versioned<SharedRrset> stored for (name, type) *)
-Definition cell_of (s : zstate) (name : list N) (t : N) : list (entry N) :=
+Definition cell_of (s : zstate) (name : list N) (t : N) : list (entry rrv) :=
   match name with
   | [] => cell t (z_apex s)
   | _ => match find_node (z_nodes s) name with Some n => cell t (n_rrsets n) | None => [] end
@@ -64,12 +64,12 @@ Qed.
 (* after update_rrset the writer's version (and every later reader until the next
    change) reads the new RRset *)
 Theorem update_effect : forall c w s name t rr r,
-  c < w -> z_q c w s -> rr <> 0 -> ver_le w r = true ->
+  c < w -> z_q c w s -> rrv_is_empty rr = false -> ver_le w r = true ->
   v_get (cell_of (data_op s w (EUpdate name t rr)) name t) r = Some rr.
 Proof.
   intros c w s name t rr r Hc [Ha Hn] Hrr Hr. cbn [data_op].
   assert (Hupd : forall rs, cell t (rs_update rs t rr w) = v_update (cell t rs) w rr).
-  { intros rs. unfold rs_update. destruct (N.eqb_spec rr 0); [contradiction|]. cbn [andb].
+  { intros rs. unfold rs_update. rewrite Hrr. cbn [andb].
     unfold rs_at. now rewrite cell_upd, N.eqb_refl. }
   destruct name as [|l rest].
   - cbn [cell_of set_apex z_apex]. rewrite Hupd. now apply cell_update_value.
@@ -80,12 +80,12 @@ Proof.
     rewrite Hupd. now apply cell_update_value.
 Qed.
 
-Lemma visible_of_cq c w r (d : list (entry N)) :
+Lemma visible_of_cq {T} c w r (d : list (entry T)) :
   c < w -> w <= r -> r < LIM -> cq c w d -> Forall (fun it => ver_le (fst it) r = true) d.
 Proof.
   unfold LIM. intros Hc Hw Hr H. unfold cq in H. rewrite v_rollback_eq in H.
   destruct d as [|[lv lx] rest]; [constructor|].
-  assert (Hall : forall l : list (entry N), le_all c l -> Forall (fun it => ver_le (fst it) r = true) l).
+  assert (Hall : forall l : list (entry T), le_all c l -> Forall (fun it => ver_le (fst it) r = true) l).
   { intros l Hl. eapply Forall_impl; [|exact Hl]. intros it Hit. cbn in Hit. rewrite ver_le_small by (unfold LIM; lia). apply N.leb_le. lia. }
   destruct (N.eqb_spec lv w) as [->|_].
   - constructor; [cbn [fst]; rewrite ver_le_small by (unfold LIM; lia); apply N.leb_le; lia|now apply Hall].
@@ -111,10 +111,11 @@ Proof.
     apply Hrem. exact (proj1 (n_q_inv _ _ _ _ _ Hq0)).
 Qed.
 
+Definition r1 (x : N) : rrv := (3600, [x]).
 Example ex_effects :
-  let s := build [IRrset [] 6 1; IRrset [2; 3] 1 11] in
-  v_get (cell_of (data_op s 1 (EUpdate [2; 3] 1 12)) [2; 3] 1) 1 = Some 12 /\
-  v_get (cell_of (data_op s 1 (EUpdate [2; 3] 1 12)) [2; 3] 1) 0 = Some 11 /\
+  let s := build [IRrset [] 6 (r1 1); IRrset [2; 3] 1 (r1 11)] in
+  v_get (cell_of (data_op s 1 (EUpdate [2; 3] 1 (r1 12))) [2; 3] 1) 1 = Some (r1 12) /\
+  v_get (cell_of (data_op s 1 (EUpdate [2; 3] 1 (r1 12))) [2; 3] 1) 0 = Some (r1 11) /\
   v_get (cell_of (data_op s 1 (ERemove [2; 3] 1)) [2; 3] 1) 1 = None /\
-  v_get (cell_of (data_op s 1 (EUpdate [4; 5; 6] 16 13)) [4; 5; 6] 16) 1 = Some 13.
+  v_get (cell_of (data_op s 1 (EUpdate [4; 5; 6] 16 (r1 13))) [4; 5; 6] 16) 1 = Some (r1 13).
 Proof. repeat split; reflexivity. Qed.
